@@ -117,7 +117,7 @@ def run(ctx, info):
     r = ctx.rng
     jobs = []
     for nm in search.all_names():
-        for _ in range(1 if ctx.quick else 3):
+        for _ in range((1 if ctx.quick else 3) * ctx.boost):
             jobs.append({"opt": nm, "cfg": {"max_cycles": r.choice([3, 5]), "fitness_error": None}, "snapshots": True, "trends": True,
                          "task": search.cont_task(obj=r.choice(["sphere", "step", "linear"]), minmax=r.choice(["min", "max"]), seed=r.randint(0, 10**6))})
     # the same fidelity on a REUSED instance (a second / third run must record its own history only)
